@@ -6,9 +6,8 @@
 // first one without a `final` line).
 //
 // Every operation is total: what would be user-level undefined behaviour is refused with a result word
-// (`dead`, `exists`, `pinned`, `owned`, `norep`) and `xparent` marks the region of finding F10 (not user UB;
-// refused unless the program contains the line `#!allow-xparent`).  All library objects are individually
-// heap-allocated so that ASan sees every stale access.
+// (`dead`, `exists`, `pinned`, `owned`, `norep`).  All library objects are individually heap-allocated so that
+// ASan sees every stale access.
 #include <sigc++/sigc++.h>
 
 #include <cstdio>
@@ -144,8 +143,6 @@ struct Interp
   std::map<int, std::weak_ptr<Holder>> holders;
   std::set<int> snames, tnames, cnames; // every name mentioned (teardown order)
   int depth = 0;
-  bool allow_xparent = false;
-  bool allow_owned = false; // (finding F11 replay: perform assignments whose cascade may destroy an operand)
   bool quiet = false;
   std::string out;
 
@@ -272,13 +269,13 @@ struct Interp
     return SI(OwnF(sp.fid, h));
   }
 
-  std::string replace_check(int d, int x, bool exchange)
+  // delete_rep_with_check() (assignment from an empty source, `*d = slot()`) writes `rep_ = nullptr` after
+  // `delete rep_`: it must not destroy the variable it runs on
+  std::string delete_check(int d)
   {
     SI* D = slots[d];
-    if (own_kind(D) && (owned(d) || owned(x)) && !allow_owned)
+    if (own_kind(D) && owned(d))
       return "owned";
-    if (exchange && has_parent(D) && (own_kind(D) || D->rep_->parent_ == D->rep_) && !allow_xparent)
-      return "xparent";
     return "";
   }
 
@@ -357,9 +354,9 @@ struct Interp
         return "dead";
       SI* D = slots[a];
       SI* X = slots[b];
-      if (D->rep_ != X->rep_)
+      if (D->rep_ != X->rep_ && X->empty())
       {
-        std::string e = replace_check(a, b, !X->empty());
+        std::string e = delete_check(a);
         if (!e.empty())
           return e;
       }
@@ -381,9 +378,6 @@ struct Interp
       std::string e = spec_check(sp);
       if (!e.empty())
         return e;
-      e = replace_check(a, a, true);
-      if (!e.empty())
-        return e;
       SI* D = slots[a];
       *D = make(sp);
       return "ok";
@@ -393,7 +387,7 @@ struct Interp
       snames.insert(a);
       if (!slots.count(a))
         return "dead";
-      std::string e = replace_check(a, a, false);
+      std::string e = delete_check(a);
       if (!e.empty())
         return e;
       SI* D = slots[a];
@@ -563,16 +557,6 @@ struct Interp
       auto w = split(l);
       if (w.empty())
         continue;
-      if (w[0] == "#!allow-xparent")
-      {
-        allow_xparent = true;
-        continue;
-      }
-      if (w[0] == "#!allow-owned")
-      {
-        allow_owned = true;
-        continue;
-      }
       if (w[0][0] == '#')
         continue;
       std::string res = exec(w);
